@@ -3,8 +3,8 @@
 # uses a scratch copy of the sources (VERIF_REPO_SRC), never touches /repo; results -> seeded/RESULTS.md
 cd /verif
 OUT=seeded/RESULTS.md
-echo "| seeded change | breaks | check | result |" > $OUT.tmp
-echo "|---|---|---|---|" >> $OUT.tmp
+echo "| seeded change | breaks | check | verdict | decided by | failing obligation / counterexample |" > $OUT.tmp
+echo "|---|---|---|---|---|---|" >> $OUT.tmp
 for d in seeded/*/; do
   n=$(basename $d)
   [ -f $d/patch.diff ] || continue
@@ -14,11 +14,27 @@ for d in seeded/*/; do
   D=$(mktemp -d /var/tmp/tp-XXXXXX)
   mkdir -p $D/embedded-cli $D/embedded-cli-macros
   cp -r /repo/embedded-cli/src $D/embedded-cli/src; cp -r /repo/embedded-cli-macros/src $D/embedded-cli-macros/src
-  if ! (cd $D && patch -s -p1 < /verif/$d/patch.diff); then echo "| $n | $p | - | patch does not apply |" >> $OUT.tmp; rm -rf $D; continue; fi
+  if ! (cd $D && patch -s -p1 < /verif/$d/patch.diff); then echo "| $n | $p | - | patch does not apply | | |" >> $OUT.tmp; rm -rf $D; continue; fi
   for q in $props; do
     grep -q "\"$q\"" MANIFEST.json || continue
-    r=$(VERIF_REPO_SRC=$D/embedded-cli/src bin/check $q 2>/dev/null | grep -E "^(OK|VIOLATION|UNDECIDED|failed obligation)" | head -3 | tr '\n' ' ' | cut -c1-300)
-    echo "| $n | $p | $q | $r |" >> $OUT.tmp
+    VERIF_REPO_SRC=$D/embedded-cli/src bin/check $q 2>/dev/null > $D/out.txt
+    python3 - "$n" "$p" "$q" $D/out.txt >> $OUT.tmp <<'PY'
+import sys,re
+n,p,q,f=sys.argv[1:5]
+t=open(f).read()
+verdict='VIOLATION' if 'VIOLATION property=' in t else ('UNDECIDED' if 'UNDECIDED' in t else ('OK' if t.startswith('OK') or '\nOK ' in t else '?'))
+fo=[l[len('failed obligation: '):] for l in t.split('\n') if l.startswith('failed obligation: ')]
+cex=[l for l in t.split('\n') if l.startswith('counterexample on the real code:')]
+if fo:
+    by='verifier (clause fails)'; what=fo[0][:170]
+    if 'no-failing-input-found' in t: by+=', no witness found'
+    else: by+=' + witness on real code'
+elif cex:
+    by='witness on real code (verifier undecided)'; what=cex[0][len('counterexample on the real code: '):][:170]
+else:
+    by=''; what=(t.strip().split('\n') or [''])[-1][:170]
+print('| %s | %s | %s | %s | %s | %s |' % (n,p,q,verdict,by,what.replace('|','\\|')))
+PY
   done
   rm -rf $D
 done
